@@ -216,6 +216,41 @@ CHECKS["C20"] = (
     "DESIGN.md §3 C20",
 )
 
+CHECKS["C16"] = (
+    "exploration",
+    "bounded-exhaustive enumeration of (target x mass matrix x step size x steps x corner point x how the step size arrives) on the real integrator/operator, against numpy reference energies",
+    "The real LeapfrogIntegrator and HMCOperator (built from JSON as the CLI emits them) are run on every "
+    "element of a finite grid: targets (Gaussian, correlated Gaussian, gamma via exp-transform + Jacobian, "
+    "3-taxon JC69 posterior; 1-8 dimensions; 1-3 parameters per operator) x 6-8 diagonal/dense mass matrices "
+    "x 5 step sizes x 6 step counts x corner points of {+-0.5,+-1.5}^2d x four ways the step size reaches "
+    "the integrator (constructed, assigned, state_dict round trip, tuned). Every element is checked for time "
+    "reversal, unit Jacobian determinant (finite differences whose own error is measured on an exactly "
+    "symplectic numpy reference) and second-order energy error against closed-form densities; the operator "
+    "is stepped under a scripted environment covering every momentum answer, every position of a NaN answer "
+    "of the target over 1/2/10 failing trials, a replaced mass matrix, a tuned step size and a second step "
+    "after accept or reject: Hastings term = K(p0)-K(p1), trajectory starts from the current state, MCMC "
+    "accept/reject flips exactly at exp(min(0,H0-H1)). Case counts asserted against closed forms.",
+    "Unstable trajectories (eps=0.5, L=30 on stiff targets) and determinant cases the finite differences cannot resolve are counted, not judged; float32/CUDA not run.",
+    "DESIGN.md §3 C16",
+)
+CHECKS["C17"] = (
+    "model_checking",
+    "exhaustive enumeration of restart histories (every interruption point, every pair, selected triples) per run configuration through torchtree.main on an in-memory file system, differential against the uninterrupted run",
+    "For 580 (thorough 870+) run configurations - Optimizer x 18 torch optimiser settings x 13 schedulers x "
+    "{float64, float32 by spec / --dtype / inherited} x {tensor, nn.Parameter} x shapes, parameter groups, "
+    "checkpoint_all, frequency; MCMC x every operator type alone and in mixtures x 15 HMC adaptor/option "
+    "combinations x dtypes; four torchtree-cli programs - an uninterrupted N-iteration run with a checkpoint "
+    "after every iteration is recorded (file, state_dict, parameters with dtype/nn-ness, generator state); "
+    "then every interruption point k=1..N, every pair and selected triples of successive interruptions is "
+    "restarted through the real entry point with -c, the generator put back, and compared bit-exactly: "
+    "restarting must not raise, parameters and state_dict right after loading are identical (key types, "
+    "tensor dtypes), the resumed run executes exactly the remaining iterations and visits the same parameter "
+    "and run states (which exposes state that state_dict never contained). 11.6k restart histories quick, "
+    "29.8k thorough; history counts asserted against closed forms.",
+    "Differential oracle (the uninterrupted run); the HMC runnable (no load_state_dict), convergence monitors and loggers are not covered.",
+    "DESIGN.md §3 C17",
+)
+
 NOT_APPLICABLE = {}
 
 PENDING_REASON = ("check not built yet in this revision (planned in DESIGN.md §3); "
